@@ -81,3 +81,28 @@ Definition g_putn (n : nat) (s : bytes) (a v : Z) : R bytes :=
 Definition g_put16_in (s : bytes) (a hi v : Z) : R bytes :=
   if (a <? 0) || (hi <? a) || (g_len s <? hi) || (hi - a <? 2) then Pan
   else Val (upd (upd s (Z.to_nat a) (g_byte ((v / 256) mod 256))) (Z.to_nat a + 1) (g_byte (v mod 256))).
+
+(* ---- slices of output configuration settings: the backing array up to the capacity, and the length ---- *)
+Notation gsetting := (Z * Z * Z * Z)%type (only parsing).   (* data type, coordinate system, precision, output frequency *)
+Definition gzero : gsetting := (0, 0, 0, 0).
+Notation oslice := (list (Z * Z * Z * Z) * Z)%type (only parsing).
+Definition g_ocap (o : oslice) : Z := Z.of_nat (length (fst o)).
+Definition g_olen (o : oslice) : Z := snd o.
+(* o[:hi] *)
+Definition g_oreslice (o : oslice) (hi : Z) : R oslice :=
+  if (hi <? 0) || (g_ocap o <? hi) then Pan else Val (fst o, hi).
+(* make([]OutputConfigurationSetting, n) *)
+Definition g_omake (n : Z) : R (list gsetting) := if n <? 0 then Pan else Val (repeat gzero (Z.to_nat n)).
+(* append(o, l...): in place when the capacity suffices, otherwise a new backing array (its spare capacity is not
+   modelled: capacity = new length) *)
+Definition g_oappend (o : oslice) (l : list gsetting) : oslice :=
+  let n := Z.to_nat (snd o) in
+  if (g_olen o + Z.of_nat (length l) <=? g_ocap o)
+  then (firstn n (fst o) ++ l ++ skipn (n + length l) (fst o), snd o + Z.of_nat (length l))
+  else (firstn n (fst o) ++ l, snd o + Z.of_nat (length l)).
+(* o[i] *)
+Definition g_oget (o : oslice) (i : Z) : R gsetting :=
+  if (i <? 0) || (g_olen o <=? i) then Pan else Val (nth (Z.to_nat i) (fst o) gzero).
+Definition g_oupd (o : oslice) (i : Z) (f : gsetting -> gsetting) : R oslice :=
+  if (i <? 0) || (g_olen o <=? i) then Pan
+  else Val (upd (fst o) (Z.to_nat i) (f (nth (Z.to_nat i) (fst o) gzero)), snd o).
